@@ -20,8 +20,12 @@ def _alarm(signum, frame):
 
 def guarded(fn, *a, **k):
     """Run fn under the watchdog; returns (outcome, value)."""
+    # the budget is CPU time of this process (a parser that hangs is busy), so that a loaded machine cannot turn a slow
+    # wall clock into a false 'hang'; a generous wall-clock limit stays as a backstop
+    signal.signal(signal.SIGPROF, _alarm)
     signal.signal(signal.SIGALRM, _alarm)
-    signal.setitimer(signal.ITIMER_REAL, HANG_S)
+    signal.setitimer(signal.ITIMER_PROF, HANG_S)
+    signal.setitimer(signal.ITIMER_REAL, max(300.0, 60 * HANG_S))
     try:
         v = fn(*a, **k)
         return 'ok', v
@@ -38,6 +42,7 @@ def guarded(fn, *a, **k):
     except BaseException as e:      # noqa
         return 'leak:' + type(e).__name__, None
     finally:
+        signal.setitimer(signal.ITIMER_PROF, 0)
         signal.setitimer(signal.ITIMER_REAL, 0)
 
 
